@@ -3,6 +3,7 @@ package jgen
 import (
 	"math"
 	"reflect"
+	"regexp"
 	"strings"
 	"time"
 	"unsafe"
@@ -154,6 +155,8 @@ func GenString(rt *rapid.T) []byte {
 	}
 }
 
+var jsonNumberRE = regexp.MustCompile(`^-?(0|[1-9][0-9]*)(\.[0-9]+)?([eE][+-]?[0-9]+)?$`)
+
 var numberLits = []string{"0", "1", "-1", "1.5", "1e5", "1E+2", "-0", "0.0", "123456789012345678901234567890", "1e400", "-1.5e-300", "0.1", "9007199254740993", "18446744073709551615", "-9223372036854775808", "3.14159"}
 var badNumberLits = []string{"1x", "01", "1e", "-", " 1", "1 ", "+1", ".5", "1.", "0x10", "NaN", "Infinity", "1e+", "--1", "1_0", "abc", "\"1\"", "１"}
 
@@ -181,6 +184,14 @@ func genValue(rt *rapid.T, t reflect.Type, o ValOpts, depth int) Recipe {
 		if rapid.IntRange(0, 9).Draw(rt, "emptynum") == 0 && !o.avoid("emptynumber") {
 			return Recipe{S: []byte{}}
 		}
+		if rapid.IntRange(0, 2).Draw(rt, "composednum") == 0 {
+			// composed literal (digit counts, odd fractions, exponents at the range limits); malformed ones only
+			// where a check accepts Numbers that are not numbers
+			lit := floatLit(rt)
+			if jsonNumberRE.MatchString(lit) || !o.avoid("badnumber") {
+				return Recipe{S: []byte(lit)}
+			}
+		}
 		return Recipe{S: []byte(rapid.SampledFrom(numberLits).Draw(rt, "numlit"))}
 	case rawType:
 		k := rapid.IntRange(0, 9).Draw(rt, "rawk")
@@ -191,6 +202,8 @@ func genValue(rt *rapid.T, t reflect.Type, o ValOpts, depth int) Recipe {
 			return Recipe{S: []byte(rapid.SampledFrom(badRawLits).Draw(rt, "badraw"))}
 		case k == 2:
 			return Recipe{S: GenDocument(rt, 3)}
+		case k == 3 && !o.avoid("badraw"):
+			return Recipe{S: Mutate(rt, GenDocument(rt, 2))}
 		default:
 			return Recipe{S: []byte(rapid.SampledFrom(rawLits).Draw(rt, "rawlit"))}
 		}
